@@ -110,19 +110,19 @@ func (e expEv) String() string {
 }
 
 type simResult struct {
-	log          []expEv
-	events       []string // projected engine events for the actor: started restarted(k) maxexceeded stopped
-	spawnLogLen  int      // length of log when Spawn returns
-	gateEntered  map[int]bool
-	stopped      bool
-	segmentsSent int // how many segments the driver gets to send
-	restarts     int
-	crashes      int
-	crashKinds   map[string]int
-	drainCrash   bool
-	replayCrash  bool
-	pillInReplay bool
-	lateSent     bool
+	log              []expEv
+	events           []string // projected engine events for the actor: started restarted(k) maxexceeded stopped
+	spawnLogLen      int      // length of log when Spawn returns
+	gateEntered      map[int]bool
+	stopped          bool
+	segmentsSent     int // how many segments the driver gets to send
+	restarts         int
+	crashes          int
+	crashKinds       map[string]int
+	drainCrash       bool
+	replayCrash      bool
+	pillInReplay     bool
+	lateSent         bool
 	internalRestarts int
 }
 
@@ -335,10 +335,10 @@ func (e recEv) String() string {
 
 type recorder struct {
 	inflight int32
-	mu  sync.Mutex
-	evs []recEv // receiver events
-	all []recEv // receiver + middleware events interleaved
-	seq int64
+	mu       sync.Mutex
+	evs      []recEv // receiver events
+	all      []recEv // receiver + middleware events interleaved
+	seq      int64
 }
 
 func (r *recorder) add(e recEv, recv bool) {
